@@ -67,6 +67,7 @@ func (s *MemoryMetaStore) GetMaybeFilesForQuery(ctx context.Context, prefilter *
 			})
 		}
 		s.mu.RUnlock()
+		verifPoint("mem.snapshot.taken")
 
 		for _, file := range snapshot {
 			if !yield(file, nil) {
